@@ -298,7 +298,7 @@ void run_case(const uint8_t *data, size_t size, CaseCtx &ctx) {
       R().cls("with_assumption_map");
   }
   g_step_count = 0;
-  g_step_budget = 5000000;
+  g_step_budget = 400000;
   try {
     a.run(start, init, assumptions);
   } catch (const step_budget_exceeded &e) {
@@ -311,7 +311,7 @@ void run_case(const uint8_t *data, size_t size, CaseCtx &ctx) {
       ctx.log << "  inv " << l << ": pre=" << to_str(a.get_pre(l)) << " post=" << to_str(a.get_post(l)) << "\n";
   unsigned long analysis_steps = g_step_count;
   g_step_budget = ~0UL;
-  R().cls(analysis_steps > 1000 ? "analysis_steps_gt_1000" : "analysis_steps_le_1000");
+  R().cls(analysis_steps > 100000 ? "analysis_steps_gt_100000" : analysis_steps > 10000 ? "analysis_steps_gt_10000" : analysis_steps > 1000 ? "analysis_steps_gt_1000" : "analysis_steps_le_1000");
 
   // ---- checker (C02) --------------------------------------------------------------------
   std::map<int64_t, crab::checker::check_kind> verdict;
